@@ -7,11 +7,22 @@ RULE = ("per case a pool of 1-8/10 distinct timestamped messages (balances incl.
         "different from the event time (model vs code only; the spec is silent). Thorough: additionally every delivery sequence of length <= 5 over 6 messages "
         "(3 timestamps x 2 values) for each of the four register kinds (9330 sequences each for balances and trades; 19607 for L1, which has a 7th message, an emptied book; 37448 for orders, "
         "which have 8 messages: the 6 open reports, a cancel request and a terminal report). A fifth of the random cases is the life of ONE order (2-4 open reports, a terminal "
-        "report, possibly a cancel request and an account snapshot repeating part of it, delivered in random order with repetition). Distinct by SHA-1 of op lines; non-trivial when an observed register changes at least once")
+        "report, possibly a cancel request and an account snapshot repeating part of it, delivered in random order with repetition). "
+        "INPUT-DOMAIN family (a quarter as many cases again, own PRNG stream, ids d<n>): the same pool-and-permutation shape with every field drawn from the whole domain of its type - "
+        "exchange times from palettes with 0, negative offsets, ties, 999/1000/1001 ms and gaps of hours / days (12 h crosses midnight, so the later instant has the smaller time of day); "
+        "balances 0, free = total, free > total, negative, 1e-8, 1e12; trade prices 0 / 1e-8 / 1e12 / negative / 0.1 / six decimals with side Buy and Sell and amounts 0 / 2.5; "
+        "ONE-SIDED tops of book (bid only / ask only, written `-1 -1`), amounts 0, prices 1e-8 / 1e12; open reports with filled in {0, q/2, q, q+2, q-1e-8}; market events that feed no "
+        "register (candle, liquidation, L2 snapshot / update: op `mkt`); EMPTY full account snapshots; up to three instruments. Distinct by SHA-1 of op lines; non-trivial when an observed register changes at least once")
 ASSUMPTIONS = [
     "L1 events carry last_update_time = time_exchange (the guard compares the event time but stores the payload's own time); otherwise modelled but outside the spec",
-    "trade prices are finite (Decimal::from_f64 succeeds); exchange times are after the Unix epoch (the default OrderBookL1 carries the epoch timestamp)",
-    "open-order reports in this check always have something left to fill (filled in {0, q/2}); terminal order reports (cancelled / fully filled / expired / failed) and cancel requests ARE delivered, "
+    "trade prices are finite (Decimal::from_f64 succeeds; 0, negative, 1e-8 and 1e12 ARE delivered); exchange times are after the Unix epoch (the default OrderBookL1 carries the epoch timestamp; "
+    "times are written relative to t0 = 2020-09-13T12:26:40Z, so 0 and negative offsets ARE delivered)",
+    "a one-sided top of book is written with `-1 -1` for the absent side in the op AND in the observation, so the register model carries it as an ordinary value (no L1 message with a real price of -1 is generated)",
+    "open-order reports of the ORIGINAL random family always have something left to fill (filled in {0, q/2}); the input-domain family also delivers open reports with NOTHING left "
+    "(filled = quantity: Orders::update_from_order_snapshot removes / does not track such an order whatever its timestamp) and over-filled ones (filled > quantity: tracked like any other). "
+    "The spec reads an open report with filled = quantity as BOTH a timestamped message about the order (its timestamp counts towards the greatest delivered) AND the exchange's word that the "
+    "order is finished (from then on 'not held' is admitted, exactly as after a Filled report); a stale open report that re-tracks the order afterwards is the known clause=ord_resurrected; "
+    "terminal order reports (cancelled / fully filled / expired / failed) and cancel requests ARE delivered, "
     "singly and inside full account snapshots; open requests and cancel responses are C01",
     "open-order details, the property LITERALLY (spec driver, specOrdLine): the details held for an order carry the greatest exchange timestamp delivered so far for that order among its open reports "
     "(with a value delivered with that timestamp), or the order is not held - 'not held' being admitted only once a terminal report for the order was delivered. The code violates this on histories "
@@ -46,12 +57,22 @@ def signature(ops, k, key, impl_line, spec_line):
         except ValueError:
             return None
 
+    def full(x):
+        # filled == order quantity (every order of this check has quantity 10)
+        try:
+            from fractions import Fraction
+            return Fraction(x) == 10
+        except (ValueError, ZeroDivisionError):
+            return False
+
     for op in ops[: k + 1]:
         t = op.split()
         if not t:
             continue
-        if t[0] == "ord" and len(t) >= 5 and t[1] == i and t[2] == c:
+        if t[0] == "ord" and len(t) >= 6 and t[1] == i and t[2] == c:
             delivered.append(num(t[4]))
+            if full(t[5]):
+                finished = True  # an open report with nothing left to fill is the exchange's word that the order is done
         elif t[0] == "ordx" and len(t) >= 5 and t[1] == i and t[2] == c:
             finished = True
             if t[3] == "Cancelled":
@@ -64,6 +85,8 @@ def signature(ops, k, key, impl_line, spec_line):
                 elif t[j] == "O":
                     if t[j + 1 : j + 3] == [i, c]:
                         delivered.append(num(t[j + 4]))
+                        if full(t[j + 5]):
+                            finished = True
                     j += 6
                 elif t[j] == "X":
                     if t[j + 1 : j + 3] == [i, c]:
